@@ -22,7 +22,22 @@ import numpy as np
 from harness.core import f2b, b2f, flist, parse_flist, MachineryError
 from harness import siggen_fixtures as fx
 
-MODEL_MODULES = ['SkyllhModel.Model.SigGen']
+MODEL_MODULES = ['SkyllhModel.Model.SigGen', 'SkyllhModel.Model.SigGenR7']
+
+# Which code is inside the executable Lean model: Python callables that run(ctx) calls and compares with their Lean
+# counterpart on every run (callables merely reached on the way — _get_invalid_events_mask,
+# _draw_valid_sig_events_for_dataset_and_shg, signal_event_post_sampling_processing, RandomChoice.__call__,
+# source_sin_dec_shift_linear — are mirrored by invalidMask / redraw / postProc / drawRows / shiftLinear but not listed).
+MODEL_MAP = {
+    'skyllh/core/signal_generator.py::MultiDatasetSignalGenerator.generate_signal_events':
+        ['SigGen.multiGenerate', 'SigGen.entryTotal', 'SigGen.distribute', 'SigGen.aggregate'],
+    'skyllh/core/signal_generator.py::MCMultiDatasetSignalGenerator.generate_signal_events':
+        ['SigGen.generateEv', 'SigGen.generateBuf'],
+    'skyllh/core/signal_generator.py::MCMultiDatasetSignalGenerator.mu2flux': ['SigGen.mu2flux', 'SigGen.mu2fluxPer'],
+    'skyllh/core/signal_generator.py::MCMultiDatasetSignalGenerator.change_shg_mgr': ['SigGen.genStep'],
+    'skyllh/core/utils/coords.py::rotate_signal_events_on_sphere': ['SigGen.relocate'],
+    'skyllh/core/analysis.py::Analysis.generate_signal_events': ['SigGen.kwCall', 'SigGen.mergeSig'],
+}
 
 # Sub-comparisons that need implementation-private state are optional: the state is read with getattr and, when
 # the attribute does not exist (renamed / refactored), the sub-comparison is skipped and counted here; the
@@ -34,6 +49,9 @@ SKIPS = collections.Counter()
 BRANCHES = [
     'choice:first-item', 'choice:last-item', 'choice:interior-item', 'choice:skips-zero-weight-item',
     'distribute:rounding-exact', 'distribute:incr(top-up)', 'distribute:decr(surplus)', 'distribute:decr-masks-empty-dataset',
+    'decr:two-or-more-removals', 'decr:mask-updated-between-removals-decides',
+    'entryTotal:poisson-draw', 'entryTotal:int_cast', 'entryTotal:int_cast-truncates-a-fraction', 'entryTotal:poisson-negative-mean-error',
+    'entryTotal:int_cast-error(nan/inf)', 'multiGenerate:ok', 'multiGenerate:aggregate-error',
     'distribute:total-0', 'aggregate:ok', 'aggregate:length-mismatch-error',
     'kwCall:early-return(mean 0)', 'kwCall:overwrite',
     'minMax:ok', 'inE:no-range', 'inE:range', 'inBand:event-on-closed-edge', 'band:source-inside-coverage',
@@ -188,6 +206,76 @@ def gen_dist_case(rng):
     return c
 
 
+def _stale_mask_counts(w, total, us):
+    """Python twin of the model's `decrHoisted` (NOT the code): the surplus removed with the mask `n > 0` taken once,
+    before the loop, instead of per removed event -> (rounded counts, counts after the removals)"""
+    w = np.asarray(w, dtype=np.float64)
+    rc = np.round(total * w, 0).astype(np.int64)
+    k = int(np.sum(rc)) - int(total)
+    if k <= 0:
+        return rc, rc
+    p = np.where(rc > 0, w, 0.)
+    cdf = np.cumsum(p / np.sum(p))
+    cdf /= cdf[-1]
+    out = rc.copy()
+    for u in list(us)[:k]:
+        out[min(int(np.searchsorted(cdf, u, side='right')), len(out) - 1)] -= 1
+    return rc, out
+
+
+def gen_surplus2_cases(rng, n_cfg):
+    """DIRECTED class (round 7): the rounding overshoots the total by >= 2 and some dataset holds exactly ONE event after
+    rounding, so that whether the mask `n > 0` is re-evaluated after every removed event is observable.  Needs >= 5
+    datasets whose shares have fractional parts in [0.5, 1) — rare in the free families.  Per configuration: one seed for
+    which the SECOND removal depends on the mask having been updated by the first (searched with the stale-mask twin on
+    the deviates RandomState(seed) delivers) and one arbitrary seed."""
+    out = []
+    tries = 0
+    while len(out) < 2 * n_cfg and tries < 400 * n_cfg:
+        tries += 1
+        J = rng.choice([5, 5, 6, 6, 6])
+        # shares t_i = k_i + f_i with f_i just above 1/2; most k_i = 0 (rounded count exactly 1)
+        t = [rng.choice([0, 0, 0, 0, 1, 2, 7]) + rng.choice([0.51, 0.55, 0.6, 0.6, 0.66, 0.7, 0.45, 0.96]) for _ in range(J)]
+        if rng.random() < 0.25:
+            t = [0.6] * J                                  # equal weights, total 3 (J=5) / (0.667, J=6, total 4)
+        if rng.random() < 0.2:
+            t[rng.randrange(J)] = 0.0                      # plus a zero-weight dataset
+        total = int(math.floor(sum(t)))
+        if total < 1 or total > 50:
+            continue
+        Y = [float(x) for x in t]
+        w = np.asarray(Y) / np.sum(Y)
+        rc = np.round(total * w, 0).astype(np.int64)
+        k = int(np.sum(rc)) - total
+        if k < 2 or not np.any(rc == 1):
+            continue
+        mode = {}
+        r_ = rng.random()
+        if r_ < 0.2:
+            mode = {'mode': 'float', 'mean_add': rng.choice([0.25, 0.5, 0.9])}
+        elif r_ < 0.35:
+            mode = {'hist': [rng.randrange(0, 51), total]}
+        found = None
+        for _ in range(60):
+            seed = rng.randrange(2 ** 31)
+            us = np.random.RandomState(seed).random_sample(k)
+            (_, stale) = _stale_mask_counts(w, total, us)
+            if np.any(stale < 0):
+                found = seed
+                break
+        for seed, tag in ((found, 'mask-update-decides'), (rng.randrange(2 ** 31), 'any-seed')):
+            if seed is None:
+                continue
+            c = {'Y': Y, 'mean': total, 'seed': seed, 'directed': 'surplus>=2,single-event-dataset:' + tag}
+            if 'mode' in mode:
+                c['mode'] = 'float'
+                c['mean'] = total + mode['mean_add']
+            if 'hist' in mode:
+                c['hist'] = list(mode['hist'])
+            out.append(c)
+    return out
+
+
 def run_dist_impl(case):
     """-> dict(weights, counts, n_signal, lens, us, exc)"""
     cfg = fx.make_cfg()
@@ -298,6 +386,12 @@ def _dist_branches(case, r):
     BR['distribute:rounding-exact' if sm == tt else 'distribute:incr(top-up)' if sm < tt else 'distribute:decr(surplus)'] += 1
     if sm > tt and any(c_ == 0 and x > 0 for c_, x in zip(rc, w)):
         BR['distribute:decr-masks-empty-dataset'] += 1
+    if sm >= tt + 2:
+        BR['decr:two-or-more-removals'] += 1
+        (_, stale) = _stale_mask_counts(w, tt, r['us'])
+        if np.any(stale < 0):
+            # with the mask of the FIRST removal the later deviate would have hit a dataset emptied meanwhile
+            BR['decr:mask-updated-between-removals-decides'] += 1
     for (p_, u_, res_) in r['choice_calls']:
         for i in np.atleast_1d(res_):
             BR['choice:first-item' if i == 0 else 'choice:last-item' if i == len(p_) - 1 else 'choice:interior-item'] += 1
@@ -385,6 +479,43 @@ def dist_lines(case, r):
         # error / no-error behaviour is compared
         return 'agg %s %d' % (','.join(['0'] * len(r['weights'])), case['ngens'])
     return 'dist 1 %d %s %s' % (r['total'] or 0, flist(r['weights']), flist(r['us']))
+
+
+def mgen_line(case, r):
+    """the whole method through the model's `multiGenerate`: argument as given (float), the recorded Poisson draw"""
+    mode = case.get('mode', 'int')
+    ng = case.get('ngens') if case.get('ngens') is not None else len(r['weights'])
+    return 'mgen %d %s %d %s %s %d' % (1 if mode == 'poisson' else 0, f2b(float(case['mean'])), r['total'] or 0,
+                                       flist(r['weights']), flist(r['us']), ng)
+
+
+def mgen_compare(case, r, model):
+    """-> (text | None, stream_only)"""
+    mode = case.get('mode', 'int')
+    BR['entryTotal:poisson-draw' if mode == 'poisson' else 'entryTotal:int_cast'] += 1
+    if mode != 'poisson' and float(case['mean']) != int(case['mean']):
+        BR['entryTotal:int_cast-truncates-a-fraction'] += 1
+    if r['exc'] is not None or r.get('n_signal') is None:
+        impl = 'ERR'
+    else:
+        impl = '%d;%s;%d' % (r['n_signal'], ','.join('%d=%d' % (j, r['lens'].get(j, 0)) for j in range(len(r['weights']))),
+                             len(r['us']))
+    BR['multiGenerate:ok' if model != 'ERR' else 'multiGenerate:aggregate-error'] += 1
+    if impl != model:
+        return ('whole method (entry, per-dataset numbers, aggregation): implementation %s, model %s' % (impl, model),
+                case.get('ngens') is None and impl != 'ERR' and model != 'ERR')
+    return (None, False)
+
+
+def _entry_error_impl(mode, mean_repr):
+    """error branches of the entry: a total that cannot be cast / a negative Poisson mean -> 'ERR' | 'ok'"""
+    cfg = fx.make_cfg()
+    g, gens, dswf = fx.make_count_generator(cfg, [1.0, 2.0])
+    try:
+        g.generate_signal_events(fx.make_rss(1), float(mean_repr), poisson=(mode == 'poisson'))
+        return 'ok'
+    except (TypeError, ValueError, OverflowError):
+        return 'ERR'
 
 
 def dist_compare(case, r, model):
@@ -1629,7 +1760,10 @@ def run(ctx):
 
 def _run(ctx):
     rng = ctx.rng
-    ctx.rule = ('dist: 2..6 datasets, yields from 7 families (equal, (3,…,3,1), small integers, random, tiny 1e-9..1e-300, with zeros, '
+    ctx.rule = ('dist: DIRECTED class always generated: rounding overshoot >= 2 with a dataset holding exactly one event (5..6 datasets, '
+                'shares just above 1/2), per configuration one seed for which the mask update between two removals decides and one '
+                'arbitrary seed; error branches of the entry (nan / inf total, negative Poisson mean); '
+                'dist: 2..6 datasets, yields from 7 families (equal, (3,…,3,1), small integers, random, tiny 1e-9..1e-300, with zeros, '
                 'exact halves), totals 0..50 given as int / as float (truncated) / drawn by poisson=True, any seed, generator list '
                 'complete or one short; mc: 1..3 synthetic MC datasets (60..500 events, coverage edges attained, events exactly on '
                 'energy-range limits; dyadic family with events exactly on / one ulp beside the band edges), 1..2 groups of 1..3 '
@@ -1664,6 +1798,7 @@ def _run(ctx):
 
     # ---------------- A. dist
     dist_cases = [{'Y': [3.0, 3.0, 3.0, 1.0], 'mean': 5, 'seed': 4}]          # the design's witness
+    dist_cases += gen_surplus2_cases(rng, ctx.n(20, 300))                     # directed (round 7): always generated
     dist_cases += [gen_dist_case(rng) for _ in range(ctx.n(600, 15000))]
     reqs, runs = [], []
     agg_reqs = []
@@ -1682,6 +1817,12 @@ def _run(ctx):
         ctx.count('dist:n-datasets=%d' % len(r['weights']))
         if c.get('hist'):
             ctx.count('dist:history-on-one-generator-object')
+        if c.get('directed'):
+            ctx.count('dist:directed:' + c['directed'])
+        if s >= tt + 2 and all(w == w for w in r['weights']):
+            ctx.count('dist:rounding-overshoot>=2')
+            if any(int(round(tt * w)) == 1 for w in r['weights']):
+                ctx.count('dist:rounding-overshoot>=2-with-a-single-event-dataset')
         if r['other_draws']:
             ctx.count('dist:other-random-primitives-used')
         if any(w == 0.0 for w in r['weights']):
@@ -1691,6 +1832,38 @@ def _run(ctx):
     models = ctx.driver('C18', reqs)
     aggs = ctx.driver('C18', agg_reqs)
     suspicious = []
+    # round 7: the whole method as one model function (entry incl. int_cast / Poisson branch, distribute, aggregate)
+    for c, r, m in zip(dist_cases, runs, ctx.driver('C18', [mgen_line(c, r) for c, r in zip(dist_cases, runs)])):
+        if r['total'] is None:
+            continue
+        (d, stream_only) = mgen_compare(c, r, m)
+        if d:
+            suspicious.append(('dist', c, d, m, stream_only))
+    # error branches of the entry, both sides must refuse
+    ent = [('float', 'nan'), ('float', 'inf'), ('float', '-inf'), ('poisson', '-1.0'), ('poisson', '-0.25')]
+    ent_ans = ctx.driver('C18', ['mgen %d %s 3 %s %s 2' % (1 if mo == 'poisson' else 0, f2b(float(mr)), flist([1 / 3., 2 / 3.]),
+                                                           flist([0.5] * 4)) for (mo, mr) in ent])
+    for (mo, mr), a_ in zip(ent, ent_ans):
+        ce = {'kind': 'entry-error', 'mode': mo, 'mean': mr, 'Y': [1.0, 2.0]}
+        ctx.case(key=('entry', mo, mr))
+        ctx.count('dist:entry-error-branch:' + mo)
+        BR['entryTotal:poisson-negative-mean-error' if mo == 'poisson' else 'entryTotal:int_cast-error(nan/inf)'] += 1
+        impl_ = _entry_error_impl(mo, mr)
+        if (a_ == 'ERR') != (impl_ == 'ERR'):
+            ctx.violation('corr', ce, 'generate_signal_events(mean=%s, poisson=%s): implementation %s, model %s' % (
+                mr, mo == 'poisson', impl_, a_), kind='correspondence', relation='error behaviour of the entry (int_cast / Poisson mean)',
+                model_output=a_, signature='C18/corr/entry', no_failing_input=True)
+    # the stale-mask variant of the model (decrHoisted, NOT the code) = the harness' stale-mask twin that directs the seeds
+    hs_cases = [(c, r) for c, r in zip(dist_cases, runs)
+                if r['exc'] is None and c.get('ngens') is None and r['total'] is not None and all(w == w for w in r['weights'])
+                and sum(int(np.round(r['total'] * w)) for w in r['weights']) >= r['total'] + 2]
+    hs_ans = ctx.driver('C18', ['disth 1 %d %s %s' % (r['total'], flist(r['weights']), flist(r['us'])) for c, r in hs_cases])
+    for (c, r), a_ in zip(hs_cases, hs_ans):
+        (_, stale) = _stale_mask_counts(r['weights'], r['total'], r['us'])
+        want = '%s;%d' % (','.join(str(int(x)) for x in stale), len(r['us']))
+        ctx.count('dist:stale-mask-twin-compared-with-decrHoisted')
+        if a_ != want:
+            raise MachineryError('stale-mask twin of the harness %s differs from the model decrHoisted %s on %r' % (want, a_, c))
     for c, r, a_req, a_ans in zip(dist_cases, runs, agg_reqs, aggs):
         if a_req != 'agg 0 1':
             BR['aggregate:ok'] += 1
@@ -1906,7 +2079,7 @@ def _run(ctx):
 
 
 MANIFEST = dict(
-    text=('Lean theorems about the executable model of the signal injection (53; whole pipeline: c18_full_pipeline — batched candidate table, normalisation, CDF, draw, relocation, validity of the relocated event, redraw, output buffers; object state: shared sig_kwargs dictionary, cached candidates across change_shg_mgr; position angle and separation kept as angles): per-dataset numbers add up to the total (any scalar type), '
+    text=('Lean theorems about the executable model of the signal injection (66; round 7: the whole MultiDatasetSignalGenerator.generate_signal_events as one model function multiGenerate — entry with Poisson branch and int_cast, rounding and correction, aggregation — with c18_multi_generate_conserved / _no_error, the proved share bound c18_share_bound, and the stale-mask variant decrHoisted with its counterexample; whole pipeline: c18_full_pipeline — batched candidate table, normalisation, CDF, draw, relocation, validity of the relocated event, redraw, output buffers; object state: shared sig_kwargs dictionary, cached candidates across change_shg_mgr; position angle and separation kept as angles): per-dataset numbers add up to the total (any scalar type), '
           'are non-negative and zero for zero-weight datasets (with machine-checked counterexamples for the two repaired defects: negative '
           'count, events lost through zip with a short generator list); aggregation over the per-dataset generators conserves the count; '
           'weighted choice never returns an item of zero probability; end to end (c18_injected_from_band): generation fed with the table '
